@@ -348,6 +348,17 @@ func (db *BadgerDB) GetKeyUsage(ranges []storage.KeyRange) (hitsPerInstance []st
 	return
 }
 
+// valueCopy returns the stored value of an item that exists.  badger hands back nil for an
+// empty value; to the callers of Get and of the range queries nil means "not found", so a stored
+// empty value is returned as a non-nil empty slice: an empty value is a value.
+func valueCopy(item *badger.Item) ([]byte, error) {
+	v, err := item.ValueCopy(nil)
+	if err == nil && v == nil {
+		v = []byte{}
+	}
+	return v, err
+}
+
 // ---- KeyValueGetter interface ------
 
 // Get returns a value given a key.
@@ -386,7 +397,7 @@ func (db *BadgerDB) Get(ctx storage.Context, tk storage.TKey) ([]byte, error) {
 			if err != nil {
 				return err
 			}
-			value, err = item.ValueCopy(nil)
+			value, err = valueCopy(item)
 			return err
 		})
 		return value, err
@@ -401,7 +412,7 @@ func (db *BadgerDB) Get(ctx storage.Context, tk storage.TKey) ([]byte, error) {
 			if err != nil {
 				return err
 			}
-			v, err = item.ValueCopy(nil)
+			v, err = valueCopy(item)
 			return err
 		})
 		storage.StoreValueBytesRead <- len(v)
@@ -565,7 +576,7 @@ func (db *BadgerDB) versionedRange(vctx storage.VersionedCtx, begTKey, endTKey s
 			}
 			if !keysOnly {
 				var err error
-				if kv.V, err = item.ValueCopy(nil); err != nil {
+				if kv.V, err = valueCopy(item); err != nil {
 					return err
 				}
 				storage.StoreValueBytesRead <- len(kv.V)
@@ -602,7 +613,7 @@ func (db *BadgerDB) unversionedRange(ctx storage.Context, begTKey, endTKey stora
 			}
 			if !keysOnly {
 				var err error
-				if kv.V, err = item.ValueCopy(nil); err != nil {
+				if kv.V, err = valueCopy(item); err != nil {
 					return err
 				}
 				storage.StoreValueBytesRead <- len(kv.V)
